@@ -156,7 +156,7 @@ def impl_set(ops):
   final = []
   if not crashed:
     for s in regs:
-      try: final.append([epath(x.keys) for x in s])
+      try: final.append([[epath(x.keys) for x in s], int(bool(s))])
       except Exception: final.append([-2])
   return [outs, final], regs
 
@@ -563,6 +563,10 @@ def oracle_value(v, sym=False):
         s = str(vl.KeyPath(list(ks)))
         if s not in res or res[s] is not x: bad('C10/query/select-all-misses-node', 'node at %r' % (ks,)); break
         if vl.KeyPath.parse(s).get(v, default_value=hits) is not x: bad('C10/query/printed-path-does-not-address-node', 'printed path %r' % s); break
+      cont = lambda x: isinstance(x, (dict, list)) and len(x) > 0
+      outer = pg.query(v, custom_selector=lambda k, x: cont(x) and len(k) > 0)
+      exp_outer = [str(vl.KeyPath(list(ks))) for ks, x in expect if cont(x) and len(ks) == 1]
+      if list(outer) != exp_outer: bad('C10/query/not-entering-selected', 'selected %r expected the outermost non-empty containers %r' % (list(outer), exp_outer))
       ints = pg.query(v, custom_selector=lambda k, x: isinstance(x, int) and not isinstance(x, bool))
       exp_ints = [str(vl.KeyPath(list(ks))) for ks, x in expect if isinstance(x, int) and not isinstance(x, bool)]
       if list(ints) != exp_ints: bad('C10/query/selector-result', 'selected %r expected %r' % (list(ints), exp_ints))
